@@ -19,7 +19,8 @@ RULE = (
     "shards draw sizes whose refinement depth is 1000..1100 (quick) / up to 3000 (thorough) or "
     "thousands of atoms/components, light shards sizes 1..200; oracle: canonicalize, serialize and "
     "parse-back return normally (any exception is a violation), parse-back has n atoms and |E| "
-    "bonds, and the partition on the result is equitable (C13 clause ii on deep inputs). A case "
+    "bonds, the string passes the C05 layout validator (4-digit indices), light cases are fixed "
+    "points, and the partition on the result is equitable (C13 clause ii on deep inputs). A case "
     "exceeding the per-case wall budget is recorded as inconclusive, never as a violation. "
     "Non-trivial = own 1-WL needs >=1000 rounds, or n>=2000, or >=1000 components; distinct by "
     "(family, size, decoration)."
@@ -191,6 +192,19 @@ def check(case, stats):
     stats.evaluated()
     if back.number_of_nodes() != n or back.number_of_edges() != m:
         raise Violation("counts", f"{case['family']} n={n}: parse-back has {back.number_of_nodes()} atoms / {back.number_of_edges()} bonds, expected {n} / {m}")
+    # C05's layout rules on big outputs (4-digit indices, counts >= 1000), linear cost
+    from ..validator import LayoutError, validate
+
+    try:
+        validate(s, mol)
+    except LayoutError as e:
+        raise Violation("layout-on-big-output:" + e.rule, f"{case['family']} n={n}: {e.msg}; string starts {s[:80]!r}") from None
+    # fixed point where it is affordable (light cases)
+    if not case.get("heavy") and n <= 400:
+        with default_recursion():
+            s2 = call("serialize", serialize_molecule, call("canonicalize", canonicalize_molecule, back))
+        if s2 != s:
+            raise Violation("fixed-point-on-family", f"{case['family']} n={n}: tucan(parse(s)) != s")
     # C13 clause (ii) on deep inputs, at no extra pipeline cost
     cls = [None] * n
     for v, d in c.nodes(data=True):
